@@ -1760,7 +1760,7 @@ func (p *densePlan) famKey(level, slot, j int) []byte {
 	k := make([]byte, p.L)
 	copy(k, p.Spine[:level])
 	k[level] = byte(slot)
-	copy(k[level+1:], expand(p.Seed, fmt.Sprintf("t%d", level), slot*8+j, p.L-level-1))
+	copy(k[level+1:], expand(p.Seed, fmt.Sprintf("t%d", level), slot*64+j, p.L-level-1))
 	return k
 }
 
@@ -1777,7 +1777,7 @@ func (p *densePlan) String() string {
 	var sb strings.Builder
 	fmt.Fprintf(&sb, "dense case kind=%s L=%d store=%s seed=%d n=%d spine=%x base=%d toggle=%d extra=%d keys\n", p.Kind, p.L, p.Store, p.Seed, p.N, p.Spine, len(p.base), len(p.toggle), len(p.extra))
 	for _, lv := range p.Levels {
-		fmt.Fprintf(&sb, "  dense level %d (prefix %x) profile=%s toggled pairs=%v; family key(slot,j) = prefix|slot|expand(seed,\"t%d\",8*slot+j)\n", lv.Level, p.Spine[:lv.Level], lv.Profile, lv.Toggled, lv.Level)
+		fmt.Fprintf(&sb, "  dense level %d (prefix %x) profile=%s toggled pairs=%v; family key(slot,j) = prefix|slot|expand(seed,\"t%d\",64*slot+j), j = 0.. skipping repeats\n", lv.Level, p.Spine[:lv.Level], lv.Profile, lv.Toggled, lv.Level)
 	}
 	for _, k := range p.toggle {
 		fmt.Fprintf(&sb, "  toggle %x\n", k)
@@ -1923,8 +1923,13 @@ func (p *densePlan) build(t *rapid.T) {
 			}
 			var pk [][]byte
 			for side := 0; side < 2; side++ {
-				for j := 0; j < shape[side]; j++ {
-					pk = append(pk, p.famKey(lv.Level, 2*pair+side, j))
+				// the keys of one slot must be pairwise distinct (short tails collide: L=4, level 2 leaves one tail byte)
+				inSlot := map[string]bool{}
+				for j := 0; len(inSlot) < shape[side] && j < 64; j++ {
+					if k := p.famKey(lv.Level, 2*pair+side, j); !inSlot[string(k)] {
+						inSlot[string(k)] = true
+						pk = append(pk, k)
+					}
 				}
 			}
 			for i, k := range pk {
